@@ -1,7 +1,7 @@
 #!/usr/bin/env python3
 """C17 generator: rows printed by TLC (Static.tla) -> a translation unit of static_asserts on real instantiations."""
 import json, sys
-CAT = {'trivial': 0, 'optout': 1, 'tr': 2, 'ntr': 3, 'throwmove': 4, 'throwasg': 5}
+CAT = {'trivial': 0, 'optout': 1, 'tr': 2, 'ntr': 3, 'throwmove': 4, 'throwasg': 5, 'ntrtd': 6}
 
 def b(x):
     return 'true' if x else 'false'
